@@ -4,7 +4,7 @@ CONSTANTS
   Ident = {"a", "b"}
   MaxAtt = 2
   Weak = {}
-  AVals = {"good", "zero", "N", "missing"}
+  AVals = {"good", "zero", "N", "missing", "replay"}
   Proofs = {"right", "wrong", "missing"}
   Seals = {"this", "other", "zero", "random"}
   Bodies = {"genuine", "badsig", "mismatch", "badtlv"}
